@@ -52,7 +52,7 @@ THEOREMS = [
     "PV.C04.lexRest_sound",
     "PV.C04.acceptsNumber_sound",
     "PV.C04.malformed_number_rejected",
-    "PV.C04.lexer_below_python_witness",
+    "PV.C04.lexer_float_before_else",
     "PV.C04.bareStar_iff",
     "PV.C04.checkSig_none_iff",
     "PV.C04.checkSig_kind",
